@@ -586,6 +586,12 @@ def s_normalisers():
         feat = draw(s_normaliser(force_kw=True))
         img = draw(s_image(hmin=3, wmin=3, masks=("all", "random", "blob")))
         img["affine"] = [draw(gen.qnz(-4, 4, 1 / 8.0, 8)), draw(gen.q(0.125, 4, 8))]
+        # low-dynamic-range images (a faint texture on a constant background) are legal inputs whose scale
+        # statistic is tiny but NOT zero: they must be normalised like any other image, not refused or skipped
+        tiny = draw(st.sampled_from([None, None, None, 2.0 ** -10, 2.0 ** -20, 2.0 ** -30, 2.0 ** -34]))
+        if tiny is not None:
+            img["affine"][1] = tiny
+            img["dtype"] = "float64"
         via = draw(st.sampled_from(["image", "array"]))
         if draw(st.integers(0, 3)) == 0:
             # the mask-aware class: plain `normalize` on a partially masked image
@@ -645,6 +651,7 @@ def c_normalisers(case, ctx):
         ctx.event("degenerate domain: skipped")
         return
     ctx.nontrivial(True)
+    ctx.event("dynamic range: tiny" if cmax < 1e-2 else "dynamic range: ordinary")
     f = feature_callable(feat, c["ch"])
     d0 = digest.digest(im)
     dtype = im.pixels.dtype
